@@ -53,6 +53,8 @@ func c08World() map[string]spec.V {
 	w["st"] = st
 	// two records of different (unnamed) struct types with the same field names in different positions
 	w["an1"] = spec.V{K: "dyn", L: []spec.V{{K: "string", S: "bob", N: "Name"}, {K: "int", S: "41", N: "Age"}}}
+	// a caller's list of floats whose shortest text differs from their exact decimal expansion
+	w["farr"] = spec.V{K: "slice", L: []spec.V{{K: "float32", S: "0.3"}, {K: "float64", S: "1e21"}, {K: "float64", S: "0.00001"}, {K: "int", S: "7"}}}
 	w["an2"] = spec.V{K: "dyn", L: []spec.V{{K: "int", S: "30", N: "Age"}, {K: "string", S: "eve", N: "Name"}, {K: "float64", S: "2.5", N: "Score"}}}
 	return w
 }
@@ -129,6 +131,7 @@ func checkPure(c pureCase) string {
 			return m
 		}
 	}
+	sharedData := map[int]map[string]interface{}{}
 	for step, a := range c.Actions {
 		if n == 0 {
 			break
@@ -142,6 +145,14 @@ func checkPure(c pureCase) string {
 		case "eval":
 			r := formula.NewRunner()
 			if d := c08Data(a.J); d != nil {
+				if !strings.Contains(texts[i], "$") {
+					// a formula without locals only reads: the caller keeps one record per variant for the whole
+					// history and hands the very same object to every evaluation ("equal data" at its plainest)
+					if sharedData[a.J%3] == nil {
+						sharedData[a.J%3] = d
+					}
+					d = sharedData[a.J%3]
+				}
 				r.SetThis(d)
 			}
 			out := obs.Eval(r, context.Background(), trees[i].Expression)
@@ -397,6 +408,8 @@ func TestC08Repeat(t *testing.T) {
 			progs = append(progs, f)
 		}
 	}
+	// a caller's list read as a whole and spread over a variadic tail, in one formula and over one record
+	progs = append(progs, "[join(farr, ';'), max(farr...) ?? 0, join(farr, ';')]", "[includes(farr, '0.3'), min(farr...) ?? 0, includes(farr, '0.3')]", "fnV(farr...), join(farr, ',')", "[join(arr, ';'), fnV(arr...), toString(arr)]")
 	actions := []pureAction{{"eval", 0, 0}, {"unrelated", 0, 0}, {"analyse", 0, 0}, {"eval", 0, 0}, {"eval", 0, 1}, {"parse", 0, 0}, {"malformed", 0, 0}, {"eval", 0, 0}, {"eval", 0, 2}, {"unrelated", 0, 1}, {"eval", 0, 1}, {"eval", 0, 2}, {"analyse", 0, 0}}
 	for idx, f := range progs {
 		if !h.Mine(int64(idx)) || run.NViolations() >= 3 {
